@@ -102,6 +102,13 @@ func resultKey(o *HOp) string {
 		return fmt.Sprint(vs)
 	case "query", "walk", "final":
 		return kvstr(o.KV)
+	case "children":
+		if o.Node == "nil" {
+			return "nil"
+		}
+		return fmt.Sprintf("%q", o.Names)
+	case "isbranch":
+		return o.Node
 	}
 	return "?"
 }
@@ -110,7 +117,24 @@ func diffTakesPart(o *HOp) bool {
 	if o.Kind == "query" || o.Kind == "walk" {
 		return o.Atomic
 	}
-	return true
+	// accessors of retained nodes are judged by their interval rules only
+	return !isHeldKind(o.Kind)
+}
+
+// diffTwoSteps: the operation is a lookup followed by a read of the node found,
+// with every lock dropped in between (GetLeafValue; Get(path) and then Value,
+// Children or IsBranch; a lookup through a sub-tree node, see c10_access_test.go).
+func diffTwoSteps(o *HOp) bool {
+	return o.Kind == "glv" || ((o.Kind == "children" || o.Kind == "isbranch") && len(o.Path) > 0)
+}
+
+func hasTwoSteps(h *History) bool {
+	for i := range h.Ops {
+		if diffTwoSteps(&h.Ops[i]) {
+			return true
+		}
+	}
+	return false
 }
 
 // apply executes step k (of d.idx) sequentially on e and reports its
@@ -129,9 +153,28 @@ func (d *diffJ) apply(e *diffEnv, k int) (res string, ok bool) {
 		e.nodes[st.src] = e.tr.Get(src.Path)
 		return "", true
 	case 2:
-		return vstr(toInt(e.nodes[st.src].Value())), true
+		n := e.nodes[st.src]
+		switch src.Kind {
+		case "children":
+			m := n.Children()
+			if m == nil {
+				return "nil", true
+			}
+			names := make([]string, 0, len(m))
+			for k := range m {
+				names = append(names, k)
+			}
+			sort.Strings(names)
+			return fmt.Sprintf("%q", names), true
+		case "isbranch":
+			if n.IsBranch() {
+				return "branch", true
+			}
+			return "other", true
+		}
+		return vstr(toInt(n.Value())), true
 	}
-	x := HOp{G: src.G, Kind: src.Kind, Path: src.Path, Val: src.Val, Nil: src.Nil, H: src.H, Sorted: src.Sorted}
+	x := HOp{G: src.G, Kind: src.Kind, Path: src.Path, Val: src.Val, Nil: src.Nil, H: src.H, Sorted: src.Sorted, Via: src.Via, Base: src.Base}
 	var l *ctree.Leaf
 	if x.Kind == "hval" || x.Kind == "hupd" {
 		if l = e.hnd[x.H]; l == nil {
@@ -244,7 +287,7 @@ func diffJudge(h *History, budget int) (v diffVerdict) {
 		}
 	}
 	v = diffSearch(h, budget, false)
-	if !v.ok && v.inconclusive == "" && hasKind(h, "glv") {
+	if !v.ok && v.inconclusive == "" && hasTwoSteps(h) {
 		w := diffSearch(h, budget-v.execs, true)
 		w.execs += v.execs
 		w.orders += v.orders
@@ -264,7 +307,7 @@ func diffSearch(h *History, budget int, twoStep bool) (v diffVerdict) {
 	}
 	sort.SliceStable(srcs, func(a, b int) bool { return h.Ops[srcs[a]].Call < h.Ops[srcs[b]].Call })
 	for _, i := range srcs {
-		if twoStep && h.Ops[i].Kind == "glv" {
+		if twoStep && diffTwoSteps(&h.Ops[i]) {
 			d.idx = append(d.idx, dstep{i, 1}, dstep{i, 2})
 			d.want = append(d.want, "", resultKey(&h.Ops[i]))
 			continue
